@@ -587,7 +587,6 @@ class PeerConnection:
                             f"received garbage: {e}, discarding {msg_header.length} "
                             f"bytes")
                         self._read_buffer = self._read_buffer[msg_header.length:]
-                        continue
                     else:
                         self.logger.warning(
                             f"queue contains only garbage: {e}, closing connection")
